@@ -120,6 +120,7 @@ func genOrder(t *rapid.T, n int) []int {
 func genMergeCase(t *rapid.T, withOps bool) (*MergeCase, *world.Model) {
 	opt := world.DefaultOptions()
 	opt.Subscriptions = true
+	opt.NodeShapedRoot = true
 	if ev.Thorough() {
 		opt.MaxServices = 5
 	}
